@@ -36,6 +36,7 @@ ASSUMPTIONS = ["predicate semantics is C10", "equivalence of the optimised route
 def run(repo: Repo, tier: str, res: CheckResult, seed: int = 0) -> None:
     late_binding_handlers(repo, res)
     terminal_flag_kept(repo, res)
+    facade_functions_forward_the_recipe(repo, res)
     retort_handler_overrides(repo, res)
     facade_cache_vs_recipe(repo, res)
     combiner_typestate(repo, res)
@@ -869,3 +870,24 @@ def facade_cache_vs_recipe(repo: Repo, res: CheckResult) -> None:
                             "the converter cache is consulted / filled on the retort that does not carry the per-call recipe: the "
                             "providers of `recipe=` are not prepended for a type pair that was resolved before (" + f.message[:160] + ")",
                             f.line))
+
+
+def facade_functions_forward_the_recipe(repo: Repo, res: CheckResult) -> None:
+    """The module-level functions of adaptix.conversion are thin fronts of one global retort. A `recipe` argument they accept is
+    the head of the recipe for that call: every path that hands the call on must hand the recipe on, otherwise the user's
+    providers are silently not consulted (the converter is produced, or refused, by the builtin recipe alone)."""
+    m = repo.mod("conversion/facade/func")
+    n = 0
+    for name, fn in m.functions.items():
+        if "recipe" not in func_params(fn):
+            continue
+        n += 1
+        res.evaluated(f"facade-func-recipe:{name}", True)
+        for c in [x for x in ast.walk(fn) if isinstance(x, ast.Call) and isinstance(x.func, ast.Attribute)
+                  and "_retort" in norm(x.func.value)]:
+            passes = any(kw.arg == "recipe" or kw.arg is None for kw in c.keywords) or any(norm(a) == "recipe" for a in c.args)
+            if not passes:
+                res.add(Finding("C09", "FACADE.recipe-argument-dropped", m.rel, name, norm(c)[:100],
+                                f"`{norm(c)[:80]}`: this path of `{name}` does not pass its `recipe` argument on -- the providers the caller "
+                                "put in front of the recipe are never consulted for this call", c.lineno))
+    res.count("FACADE.functions-with-recipe", n, 2)
